@@ -198,6 +198,10 @@ func c16World(t *testing.T, r *simcore.Run) any {
 			if r.Sleep("drv:wait", nil, time.Millisecond).Killed {
 				return
 			}
+			if !first.start.IsZero() && time.Since(first.start) > dl+r.InjectedFor("first")+50*time.Millisecond {
+				r.Fail("C16", "first/not-returned", "collection has not returned %v after its start; deadline was %v", time.Since(first.start), dl)
+				return
+			}
 		}
 		c16CheckOutcome(r, "first", first, clocks, dl, sentinel)
 		for _, o := range overlaps {
